@@ -17,7 +17,8 @@ from vlib import inputs, refmodel
 
 def gen_table(rng, c):
     """Rows + the expected kept set.  Mutation classes: ok, missing in a sample, zero major CN in a sample, duplicated
-    (both copies usable), fully zero CN."""
+    (both copies usable), fully zero CN, and a usable row accompanied by an extra row with zero major CN (kept: each
+    sample still has exactly one row with a positive major copy number)."""
     n_mut = int(rng.integers(2, 9))
     D = int(rng.integers(1, 4))
     samples = ["T%d" % s for s in rng.permutation(9)[:D]]
@@ -27,7 +28,7 @@ def gen_table(rng, c):
     kept = []
     classes = {}
     for k, mid in enumerate(ids):
-        cls = ["ok", "ok", "ok", "missing", "zero_cn", "dup", "all_zero"][int(rng.integers(0, 7))] if k > 0 else "ok"
+        cls = ["ok", "ok", "ok", "missing", "zero_cn", "dup", "all_zero", "dup_zero"][int(rng.integers(0, 8))] if k > 0 else "ok"
         if D == 1 and cls == "missing":
             cls = "ok"
         classes[str(mid)] = cls
@@ -53,6 +54,12 @@ def gen_table(rng, c):
         elif cls == "dup":
             z = int(rng.integers(0, D))
             per.append(dict(per[z], ref_counts=per[z]["ref_counts"] + 1))
+        elif cls == "dup_zero":
+            # an extra, unusable row (major copy number zero) next to the usable one: every sample still has exactly
+            # one row with a positive major copy number, so the mutation is kept
+            z = int(rng.integers(0, D))
+            per.append(dict(per[z], major_cn=0, minor_cn=0, ref_counts=per[z]["ref_counts"] + 2))
+            kept.append(mid)
         else:
             kept.append(mid)
         rows.extend(per)
@@ -141,7 +148,8 @@ def load_task(task):
                 grid = np.linspace(0, 1, G)
                 by = {}
                 for r in rows:
-                    by.setdefault(str(r["mutation_id"]), {})[r["sample_id"]] = r
+                    if r["major_cn"] > 0:
+                        by.setdefault(str(r["mutation_id"]), {})[r["sample_id"]] = r
                 for dp in data0[:3]:
                     if dp.value.shape != (len(samples), G):
                         part.violation("likelihood grid does not have one row per sample", dict(case, shape=dp.value.shape))
@@ -204,7 +212,8 @@ def run(ctx):
                 "distinct = (set of classes present, separator, optional columns, clustering, #samples)")
     ctx.assumptions = ["excluded by the property: a sample keeping no usable row; extra rows in one sample offsetting "
                        "missing rows in another (generators never produce them)",
-                       "a duplicate whose extra copy has zero major CN is not generated (statement ambiguous)"]
+                       "a usable row plus an extra row with zero major CN counts as 'exactly one row with a positive major "
+                       "copy number' (the statement's first clause) and is kept"]
     shards = 16
     tasks = [{"seed": ctx.seed, "shard": i, "count": 13 if quick else 190, "reject": 3} for i in range(shards)]
     ctx.map("checks.c17", "load_task", tasks, timeout=3000)
